@@ -163,3 +163,24 @@ Proof.
     destruct (IH _ _ _ Hw1 Hcs E2 ltac:(intros Hin; apply Hnf; right; exact Hin)) as [Hks Hw2].
     cbn [check_calls]. rewrite Hk, Hks. split; [reflexivity|exact Hw2].
 Qed.
+
+(** [call_ok] as a boolean, for concrete scripts *)
+Definition call_okb (c : call) : bool :=
+  match c with
+  | CWeightedN ws => forallb (fun w => w <? p64) ws
+  | CWeightedF ws => forallb fpos ws
+  | CUniformF _ => false
+  | CPartial len _ _ => len <? p64
+  | CShuffle m => N.of_nat m <? p64
+  | _ => true
+  end.
+
+Lemma call_okb_ok : forall c, call_okb c = true -> call_ok c.
+Proof.
+  intros [| | |n|m|ws|ws|b off|len amount show|high] H; cbn [call_okb call_ok] in *; try exact Logic.I.
+  - apply N.ltb_lt. exact H.
+  - apply Forall_forall. intros w Hw. apply N.ltb_lt. exact (proj1 (forallb_forall _ ws) H w Hw).
+  - apply Forall_forall. intros w Hw. exact (proj1 (forallb_forall _ ws) H w Hw).
+  - apply N.ltb_lt. exact H.
+  - discriminate.
+Qed.
